@@ -74,7 +74,8 @@ def check_total(case):
         data['keypoints'] = [(float(rs.randint(0, W)), float(rs.randint(0, H)), float(rs.randint(0, D)), 0.3, 1.5) for _ in range(5)]
         ckw['keypoint_params'] = A.KeypointParams('xyzas', angle_in_degrees=False)
     if 'dicom' in tg or 'dicom' in spec.get('needs', []):
-        data['dicom'] = dict(DICOM) if case['float_header'] else dict(DICOM, RescaleIntercept=-1024, RescaleSlope=1)
+        # documented header fields as floats (non-integral where the field allows it) or as integers
+        data['dicom'] = dict(DICOM, XRayTubeCurrent=212.5) if case['float_header'] else dict(DICOM, RescaleIntercept=-1024, RescaleSlope=1)
     if 'cropping_bbox' in spec.get('needs', []):
         data[kw.get('cropping_box_key', 'cropping_bbox')] = (2, 2, 1, W - 2, H - 2, D - 1)
     try:
@@ -171,7 +172,7 @@ def run(seed=0, tier='quick', hints=None, broken=False):
             reps = 1 if tier == 'quick' and not broken else 3
             # then the same configuration with every draw at an end point of its range (implrun.seed)
             patterns = [0x0000, 0xFFFF, 0x5555, 0xAAAA] + ([] if tier == 'quick' else [rng.getrandbits(16) for _ in range(8)])
-            for ext in [None] * reps + patterns:
+            for it, ext in enumerate([None] * reps + patterns):
                 dt = rng.choice(dts)
                 targets = ['mask', 'masks', 'dicom'] + (['keypoints'] if name not in ('BBoxSafeRandomCrop', 'RandomSizedBBoxSafeCrop', 'GridDropout') else []) \
                     + (['bboxes'] if name not in ('CoarseDropout', 'GridDropout') else [])
@@ -180,7 +181,8 @@ def run(seed=0, tier='quick', hints=None, broken=False):
                 if name == 'NPSNoise':
                     channels = None
                 case = {'name': name, 'kw': jsonable(kw), 'shape': [12, 10, 8], 'seed': rng.randint(0, 10 ** 6),
-                        'dtype': dt, 'channels': channels, 'targets': targets, 'float_header': rng.random() < 0.5}
+                        'dtype': dt, 'channels': channels, 'targets': targets,
+                        'float_header': (it % 2 == 0) if 'dicom' in spec.get('needs', []) else rng.random() < 0.5}
                 if ext is not None:
                     case['seed'] = R.EXT_BASE + ext
                 bad = check_total(case)
